@@ -1266,6 +1266,21 @@ def check_C05(ctx):
     lines = [c[0] for c in cases]
     model = run_model(["cmp"], "\n".join(lines) + "\n").split("\n")[:-1]
     ndis = nor = 0
+    # C++ only: the same string cases with the expected value as a `std::string *` (strp) and with the actual one as a `std::string *` (strq)
+    PTR_NAMES = ("isEqualToString", "isNotEqualToString", "containsString", "doesNotContainString", "beginsWithString")
+    ptr_cases = [(("strp " if k % 2 == 0 else "strq ") + c[0][4:], c[1]) for k, c in enumerate(c for c in cases if c[0].startswith("str ") and c[0].split(" ")[1] in PTR_NAMES)]
+    got, rc, err = run_probe(exe_cpp, [c[0] for c in ptr_cases], env=asan_env())
+    if rc != 0 or len(got) != len(ptr_cases):
+        bad = ptr_cases[min(len(got), len(ptr_cases) - 1)][0]
+        ctx.violation(f"[C05] the C++ probe crashed (exit {rc}) on `{bad}`: " + " ".join(l for l in err.split("\n") if "ERROR" in l or "SUMMARY" in l)[:300], bad, found_input=True, facts={"crash": True})
+    else:
+        for (line, want), g in zip(ptr_cases, got):
+            if g != ("1" if want else "0"):
+                nor += 1
+                if nor <= 4:
+                    ctx.violation(f"[C05] C++ ({'expected value' if line.startswith('strp') else 'actual value'} given as a std::string pointer): `{line}` {'passes' if g == '1' else 'fails' if g == '0' else 'reports ' + g}, the documented relation {'holds' if want else 'does not hold'}",
+                                  "# feed to harness/cmp_probe_cpp\n" + line, found_input=True, facts={"name": line.split(' ')[1], "cpp_pointer_overload": True})
+    ctx.coverage["cpp_pointer_overload_cases"] = len(ptr_cases)
     for label, exe in (("C", exe_c), ("C++ (std::string overloads)", exe_cpp)):
         got, rc, err = run_probe(exe, lines, env=asan_env())
         if rc != 0 or len(got) != len(lines):
@@ -2200,6 +2215,51 @@ def check_C10(ctx):
         for piece in pieces:
             if "[" + piece + "]" not in msg:
                 viol(f"the message does not contain {piece!r} literally: {msg!r}", line)
+    # ---- what the reporters make of a message: the text reporter prints it, the XML reporters write it into an attribute; whether it
+    # came as an argument of a format ("%s", text) or as a percent-doubled format, inside a test or from a suite fixture that the
+    # reporting process runs, short or beyond the reporters' first buffers (100, 1000 bytes) ----
+    bench = Bench(ctx, asan=True)
+    base = ["plain words", "100% done", "load 5%s of %d", "%n%n%n%n", "a<b & \"c\" 'd' > e", "%%literal%% 50%", "x" * 99, "y" * 100, "z%s" * 40, "w" * 99 + "%d", ("long message %s & <more> " * 6)[:150],
+            "q" * 995 + "%s%d", ("p%c" * 400)[:1100]]
+    base += [gen_message(rng, c).replace("\t", " ").replace("\n", " ").replace("\r", " ") for c in ("pct", "meta", "long", "pct", "long") for _ in range(sizes(ctx, 2, 12))]
+    base = [m_ for m_ in base if all(32 <= ord(ch) < 127 for ch in m_)]
+    rjobs, rmeta = [], []
+    for msg in base:
+        for act in "XY":
+            code = act + msg.encode("latin-1").hex()
+            inside = Scen(S("top", items=[T("t0", body=["P", code]), T("t1", body=["P"])]))
+            inner = S("inner", items=[T("a", body=["P"])])
+            outside = S("top", su=1, td=1, items=[inner, T("c", body=["P"])]); outside.fixture = ([code], [])
+            for where, sc in (("in a test", inside), ("in a suite fixture run by the reporting process", Scen(outside))):
+                for rep in ("text", "xml", "libxml"):
+                    rjobs.append((sc.text(), rep)); rmeta.append((msg, act, where, rep, sc))
+    robs = bench.run_many(rjobs, env=asan_env(), timeout=60)
+    rshown = {}
+    for (msg, act, where, rep, sc), o in zip(rmeta, robs):
+        how = "as an argument of \"%s\"" if act == "X" else "as a percent-doubled format"
+        case = f"# reporter: {rep}   harness/scenario_run <file> {rep} <outdir>   ({act}<hex>: a failing check whose message is the hex-coded text, {how})\n" + sc.text()
+        bad = None
+        if o.timeout or (o.rc is not None and (o.rc < 0 or o.rc in (98, 99))) or "ERROR: AddressSanitizer" in o.stderr or "runtime error" in o.stderr:
+            bad = "the run crashed: " + " ".join(l.strip() for l in o.stderr.split("\n") if "ERROR" in l or "SUMMARY" in l)[:200]
+        elif rep == "text":
+            if msg not in o.stdout: bad = "the text reporter does not print the message literally"
+        else:
+            docs = xml_docs(o)
+            errs = [err for _, _, err, _ in docs if err]
+            found = []
+
+            def walk(e):
+                if e.tag == "failure": found.append(e.attrs.get("message", ""))
+                for c in e.children: walk(c)
+            for _, root, err, _ in docs:
+                if not err: walk(root)
+            if errs: bad = f"the report is not well-formed XML ({errs[0]})"
+            elif not any(g == msg or (len(msg) > 900 and len(g) >= 900 and msg.startswith(g)) for g in found):
+                bad = f"no failure element carries the message (found {[g[:60] for g in found][:3]})"
+        if bad and rshown.get((rep, where), 0) < 2:
+            rshown[(rep, where)] = rshown.get((rep, where), 0) + 1
+            viol(f"{rep} reporter, a failed check {where} whose message ({len(msg)} characters: {msg[:50]!r}) is given {how}: {bad}", case)
+    ctx.coverage["reporter_message_runs"] = len(rjobs)
     ctx.oblige("correspondence C10: model and implementation produce the same message text for every generated case", ndis == 0, f"{ndis} disagreements")
     ctx.coverage["correspondence"] = {"cases": len(probe_lines) + len(leg), "disagreements": ndis, "oracle_failures": nor}
     ctx.coverage["samples"] = probe_lines[:2] + [leg[0][0]]
@@ -2370,13 +2430,14 @@ def check_C09(ctx):
     runs = []     # (args(list of (lib, pat)), options)
     for name, items in libs:
         for _ in range(sizes(ctx, 10, 30) if len(items) < 40 else 4):
-            runs.append(([(name, gen_pattern(rng, items))], rng.choice([[], [], ["-q"], ["--xml", "X"], ["-X", "L"], ["-s", "Suite"]])))
+            runs.append(([(name, gen_pattern(rng, items))], rng.choice([[], [], ["-q"], ["--xml", "X"], ["-X", "L"], ["-s", "Suite"], ["-v"], ["--verbose", "-q"], ["--xml=X"], ["-xX"],
+                                                                         ["--suite=Suite"], ["--libxml2=L"], ["--quiet"]])))
     for _ in range(sizes(ctx, 25, 300)):     # several libraries, each with or without its own pattern; sometimes a missing one
         chosen = rng.sample(libs[: min(len(libs), 14)], rng.choice([2, 2, 3]))
         pairs = [(n, gen_pattern(rng, it) if rng.random() < 0.6 else None) for n, it in chosen]
         if rng.random() < 0.15:
             pairs.insert(rng.randrange(len(pairs) + 1), ("no_such_library.so", None))
-        runs.append((pairs, rng.choice([[], ["-q"], ["--xml", "X"], ["-s", "Common"]])))
+        runs.append((pairs, rng.choice([[], ["-q"], ["--xml", "X"], ["-s", "Common"], ["--suite=Common"], ["--xml=X"], ["-v"], ["--libxml2=L"], ["-q", "--suite=Common"]])))
     # the same test names in several contexts (also the default one), selected by wildcard context + literal name
     for k2, ctxs in enumerate([["Tcp", "Tls", "default"], ["Alpha", "Alp", "Al", "Beta"]]):
         name = f"libsame{k2}_tests.so"
@@ -2497,7 +2558,7 @@ def check_C09(ctx):
             want += [f"{l}/{c}:{n}" for c, n in sel]
             if any(n.endswith("_fails") for _, n in sel): fail = True
         # with --suite/-s the libraries run as one suite: its final line gives the totals over all of them
-        if opts[:1] == ["-s"] and sorted(want) == ex and all(l in libmap and l not in unloadable and py_selected(libmap[l], p) for l, p in opairs):
+        if (opts[:1] == ["-s"] or any(o_.startswith("--suite=") for o_ in opts)) and "-q" not in opts and sorted(want) == ex and all(l in libmap and l not in unloadable and py_selected(libmap[l], p) for l, p in opairs):
             comp = [l for l in stdouts.get(ri, "").split("\n") if l.startswith("Completed ")]
             nf = sum(1 for x in want if x.endswith("_fails"))
             tot = parse_counts(re.sub(r"\x1b\[[0-9;]*m", "", comp[-1])) if comp else None
@@ -2559,6 +2620,7 @@ def check_C14(ctx):
     bench = Bench(ctx)
     scens, envs, labels = [], [], []
     again_model = {}
+    oracle_only = set()
     for mode in ("fork", "inproc", "single:slow"):
         for pos in (0, 1, 2):
             for pre in ([], ["P"], ["F"], ["P", "F", "P"]):
@@ -2588,6 +2650,13 @@ def check_C14(ctx):
     # slow context setup (the limit covers the fixtures too)
     for mode in ("fork", "single:slow"):
         scens.append(Scen(S("top", items=[T("slow", ctx=1, setup=["Z"], body=["P"]), T("b", body=["P"])]), mode=mode)); envs.append({"CGREEN_PER_TEST_TIMEOUT": "1"}); labels.append(f"{mode}, overrun in the context's setup")
+    # ... and the teardown, after a body that returned in time (the limit is for the whole test, tally included)
+    for mode in ("fork", "inproc", "single:slow"):
+        scens.append(Scen(S("top", items=[T("a", body=["P"]), T("slow", ctx=1, teardown=["Z"], body=["P"]), T("b", body=["P"])]), mode=mode)); envs.append({"CGREEN_PER_TEST_TIMEOUT": "1"}); labels.append(f"{mode}, overrun in the context's teardown")
+    for mode in ("fork", "single:slow"):
+        root = S("top", su=1, td=1, items=[T("slow", body=["P"]), T("b", body=["P"])]); root.fixture = ([], ["Z"])
+        scens.append(Scen(root, mode=mode)); envs.append({"CGREEN_PER_TEST_TIMEOUT": "1"}); labels.append(f"{mode}, overrun in the suite's teardown fixture")
+        oracle_only.add(len(scens) - 1)      # scripted suite fixtures are a feature of the harness, not of the model
     models = run_model_scenarios([(again_model.get(i, s)).text() for i, s in enumerate(scens)])
 
     def one(i):
@@ -2603,6 +2672,7 @@ def check_C14(ctx):
         ds = compare(m, o, "text", check_events=False)
         if si in again_model:      # (the output of the first run precedes the second's: only the way the process ends is compared)
             ds = [] if model_status(m) == status_of(o) else [f"status: model={model_status(m)} impl={status_of(o)}"]
+        if si in oracle_only: ds = []
         if ds:
             ndis += 1
             if ndis <= 3: ctx.oblige("correspondence C14", False, f"{lab}: {ds[0]}")
@@ -2610,7 +2680,7 @@ def check_C14(ctx):
         errs = []
         if st == "timeout": errs.append("the test was not stopped (the run was still going after 40 s)")
         elif st in ("0", "exit0"): errs.append(f"the run's verdict is success (status {st}) although a test overran its limit")
-        if s.mode == "fork" and st in ("0", "1") and si not in again_model:
+        if s.mode == "fork" and st in ("0", "1") and si not in again_model and si not in oracle_only:
             e = oracle_C03(s, m, o, "text")
             if e: errs.append(e)
         if errs and shown < 6:
